@@ -205,6 +205,11 @@ class ProtocolContext:
                 self._state, IsInIdle | Inactive | None
             ), f"{self}: Coding error"  # mypy hint
 
+        elif self._fut.done() and isinstance(self._state, IsInIdle | Inactive):
+            # is the future of the last cmd (done, but not yet cleared by _check_buffer)
+            _LOGGER.debug("BEFORE = %s", self)
+            assert self._cmd is None, f"{self}: Coding error"  # mypy hint
+
         elif self._fut.cancelled():  # by send_cmd(qos.timeout)
             _LOGGER.debug("BEFORE = %s: expired=%s (global)", self, expired)
             assert self._cmd is not None, f"{self}: Coding error"  # mypy hint
